@@ -9,7 +9,7 @@ PROP = "C10"
 CRATE = "c10"
 DRIVER = "C10"
 COQ_IMPORTS = "From SV Require Import Model.Replication."
-READY = False
+READY = True
 XCHECK = 25
 REPO = "/repo"
 
